@@ -9,10 +9,12 @@ open Wz
 
 variable {nl : Nl} {ep : Bytes}
 
-/-- a part on the wire: the bytes of its header block (without the blank line) and its payload -/
+/-- a part on the wire: the bytes of its header block (without the blank line), its payload, and the
+transport padding (RFC 2046) that follows `--boundary` on the delimiter line in front of it -/
 structure RawPart where
   hdr : Bytes
   payload : Bytes
+  pad : Bytes
 deriving Repr, DecidableEq
 
 /-- the PART branch of `next_event` once BLANK_LINE_RE has matched: from the header block to the
@@ -114,13 +116,15 @@ theorem headOut_spec {H : Bytes} {ev : Event} (h : headEvent H = .ok ev) :
 /-- a raw part the theorems cover (decidable): the header block starts with a byte that is not white
 space (so not with a line break either), its first blank line is the one that ends it, the decoder
 makes a Field / File event of it (`headEvent`: `_parse_headers`, Content-Disposition present,
-`parse_options_header` succeeds), and the payload has no line starting with `--boundary` and is free
-of the other newline kind. Header lines may be folded, padded with white space, broken with any line
+`parse_options_header` succeeds), the transport padding on its delimiter line is horizontal white
+space (any amount), and the payload has no line starting with `--boundary` and is free of the other
+newline kind. Header lines may be folded, padded with white space, broken with any line
 break, come in any order and number. -/
 def RawOk (nl : Nl) (bnd : Bytes) (r : RawPart) : Prop :=
   isBytesSpace (r.hdr.headD 32) = false ∧
   searchBlank (r.hdr ++ (nl.bytes ++ nl.bytes)) = some (r.hdr.length, r.hdr.length + 2 * nl.len) ∧
   (headEvent r.hdr).toOption.isSome = true ∧
+  (∀ x ∈ r.pad, isHws x = true) ∧
   PayloadOkNl nl bnd r.payload
 
 instance (nl : Nl) (bnd : Bytes) (r : RawPart) : Decidable (RawOk nl bnd r) := by
@@ -148,9 +152,9 @@ theorem rawOk_event {bnd : Bytes} {r : RawPart} (h : RawOk nl bnd r) :
 /-! ### bodies made of raw parts -/
 
 def rawPartBytes (nl : Nl) (bnd : Bytes) (r : RawPart) : Bytes :=
-  nl.bytes ++ (delim bnd ++ (nl.bytes ++ (r.hdr ++ (nl.bytes ++ framedNl nl r.payload))))
+  nl.bytes ++ (delim bnd ++ (r.pad ++ (nl.bytes ++ (r.hdr ++ (nl.bytes ++ framedNl nl r.payload)))))
 
-/-- `NL--boundary NL headers NL NL payload … NL--boundary--` + `ep` -/
+/-- `NL--boundary pad NL headers NL NL payload … NL--boundary--` + `ep` -/
 def rawBody (nl : Nl) (bnd ep : Bytes) : List RawPart → Bytes
   | [] => closing nl bnd ep
   | r :: rs => rawPartBytes nl bnd r ++ rawBody nl bnd ep rs
@@ -162,7 +166,7 @@ def rDataOf (nl : Nl) (bnd ep : Bytes) (r : RawPart) (rs : List RawPart) : Bytes
 /-- what follows `NL--boundary` in the body for the remaining parts -/
 def rTailOf (nl : Nl) (bnd ep : Bytes) : List RawPart → Bytes
   | [] => 45 :: 45 :: ep
-  | r :: rs => nl.bytes ++ (r.hdr ++ (nl.bytes ++ rDataOf nl bnd ep r rs))
+  | r :: rs => r.pad ++ (nl.bytes ++ (r.hdr ++ (nl.bytes ++ rDataOf nl bnd ep r rs)))
 
 /-- the buffer once that delimiter has been consumed -/
 def rAfterOf (nl : Nl) (bnd ep : Bytes) : List RawPart → Bytes
@@ -182,7 +186,7 @@ theorem rAfterDelim_tailOf {bnd : Bytes} (rs : List RawPart) (hv : ∀ q ∈ rs,
   | cons r rs =>
     rcases rawOk_head (hv r (by simp)) with ⟨x, t, hx, hsp⟩
     have hx10 : x ≠ 10 := by intro e; subst e; simp [isBytesSpace] at hsp
-    refine Or.inr ⟨rfl, x, t ++ (nl.bytes ++ rDataOf nl bnd ep r rs), hx10, ?_, ?_⟩
+    refine Or.inr ⟨rfl, r.pad, x, t ++ (nl.bytes ++ rDataOf nl bnd ep r rs), (hv r (by simp)).2.2.2.1, hx10, ?_, ?_⟩
     · simp only [rTailOf, hx, List.cons_append]
     · simp only [rAfterOf, hx, List.cons_append]
 
@@ -208,7 +212,7 @@ theorem dataSpec_rDataOf {bnd : Bytes} (hb : BoundaryOk bnd) (r : RawPart) (rs :
     exact dataSpec_encoded_empty_nl (bnd := bnd) _ (rAfterDelim_tailOf rs hvs)
   | cons a t =>
     simp only [List.isEmpty_cons, Bool.false_eq_true, if_false]
-    exact dataSpec_encoded_nl hb (a :: t) (rTailOf nl bnd ep rs) (by rw [← hp]; exact hv.2.2.2)
+    exact dataSpec_encoded_nl hb (a :: t) (rTailOf nl bnd ep rs) (by rw [← hp]; exact hv.2.2.2.2)
       (rAfterDelim_tailOf rs hvs)
 
 /-- the data stretch starts with exactly the line break -/
@@ -220,12 +224,12 @@ theorem lbLen_rDataOf {bnd : Bytes} (r : RawPart) (rs : List RawPart) (hv : RawO
   | true => simp only [if_true, List.nil_append]; exact nl.lbLen_delim bnd _
   | false =>
     simp only [Bool.false_eq_true, if_false]
-    exact Nl.lbLen_data _ _ hv.2.2.2.2
+    exact Nl.lbLen_data _ _ hv.2.2.2.2.2
 
 /-! ### encoder-shaped parts are raw parts -/
 
 /-- the raw form of a part with `Name: value` header lines -/
-def rawOf (nl : Nl) (p : Part) : RawPart := ⟨hdrBlock nl (nameOf p) p, p.payload⟩
+def rawOf (nl : Nl) (p : Part) : RawPart := ⟨hdrBlock nl (nameOf p) p, p.payload, []⟩
 
 theorem rawBody_map (bnd : Bytes) (ps : List Part) :
     rawBody nl bnd ep (ps.map (rawOf nl)) = encBody nl bnd ep ps := by
@@ -279,7 +283,7 @@ theorem rawOk_of_validPart {bnd : Bytes} {p : Part} (hv : ValidPart nl bnd p) : 
     intro l hl
     rcases List.mem_map.1 hl with ⟨kv, hkv, rfl⟩
     exact lineOk_of_headerOk (hok kv hkv)
-  refine ⟨?_, ?_, ?_, hf.2.2.2.2.2⟩
+  refine ⟨?_, ?_, ?_, by simp [rawOf], hf.2.2.2.2.2⟩
   · rcases hdrBlock_head nl (nameOf p) p with ⟨r, hr⟩
     simp only [rawOf, hr, List.headD_cons]
     decide
